@@ -7,7 +7,7 @@ the Go names are kept. Type parameters are instantiated as:
   * `A` (address)  := Nat,  `V` (value) := Nat,  `H` (hash/id) := Nat with `Hash v = v`
     (the code compares values through their ids only; the id is assumed injective),
   * `Height` := Nat, `Round` := Int (Go `int`: negative rounds are representable and reach the
-    vote counter), `VotingPower` := Nat in the tallies; the thresholds `f`, `q` are computed with
+    vote counter), `VotingPower` := Nat with every sum taken modulo 2^64 (`wordMod`); the thresholds `f`, `q` are computed with
     the 64-bit wrap-around arithmetic of Go's `uint` (`fU`, `qU`).
 The three interfaces the state machine is parameterised with (`Validators`, `Application`) are the
 record `Env`.
@@ -100,6 +100,10 @@ def qN (n : Nat) : Nat :=
 def fOf (n : Nat) : Nat := (fU (UInt64.ofNat n)).toNat
 def qOf (n : Nat) : Nat := (qU (UInt64.ofNat n)).toNat
 
+/-- Go's `uint` is 64 bits wide: sums of voting powers wrap around at `2^64` (`b.total += addrPower`,
+`b.perVoteType[voteType] += addrPower`, `allVotes.total + uncountedProposerPower`). -/
+def wordMod : Nat := 2 ^ 64
+
 /-! ## ballot.go -/
 
 structure BallotSet where
@@ -146,14 +150,14 @@ def BallotSet.add (b : BallotSet) (a : Addr) (pw : Nat) (t : VoteType) : BallotS
   let b1 : BallotSet :=
     match lookupA a b.ballots with
     | some _ => b
-    | none => { b with ballots := setA a (false, false) b.ballots, total := b.total + pw }
+    | none => { b with ballots := setA a (false, false) b.ballots, total := (b.total + pw) % wordMod }
   let cur := (lookupA a b1.ballots).getD (false, false)
   if flagOf t cur then (b1, false)
   else
     let b2 := { b1 with ballots := setA a (setFlag t cur) b1.ballots }
     match t with
-    | .prevote => ({ b2 with perPrevote := b2.perPrevote + pw }, true)
-    | .precommit => ({ b2 with perPrecommit := b2.perPrecommit + pw }, true)
+    | .prevote => ({ b2 with perPrevote := (b2.perPrevote + pw) % wordMod }, true)
+    | .precommit => ({ b2 with perPrecommit := (b2.perPrecommit + pw) % wordMod }, true)
 
 /-! ## round_data.go -/
 
@@ -202,7 +206,8 @@ def RoundData.countVote (r : RoundData) (t : VoteType) (id : Option Val) : Nat :
 
 def RoundData.countAny (r : RoundData) (t : VoteType) : Nat := r.allVotes.per t
 
-def RoundData.countFutureMessageSenders (r : RoundData) : Nat := r.allVotes.total + r.uncounted
+def RoundData.countFutureMessageSenders (r : RoundData) : Nat :=
+  (r.allVotes.total + r.uncounted) % wordMod
 
 /-! ## vote_counter.go -/
 
